@@ -346,6 +346,32 @@ func c10Check(c c10Case) vfResult {
 
 func TestVerif_C10(t *testing.T) {
 	defer vfStats.dump()
+	vfStats.Property = "C10"
+	if !vfDictSweep(t, "C10", "gen", vfDictText(), func(tok string) []c10Case {
+		flags := []string{"look-alike"}
+		out := []c10Case{{Doc: vfB(`{"` + tok + `":1}`), Flags: flags}, {Doc: vfB(`{"k":"` + tok + `","n":["` + tok + `"]}`), Flags: flags},
+			{Doc: vfB(`{"` + tok + `":{"` + tok + `":"` + tok + `"}}`), Flags: flags}}
+		// as the value of a top-level "type" member: GeoJSON exactly for the nine names
+		d := `{"type":"` + tok + `"}`
+		c := c10Case{Doc: vfB(d), Flags: flags}
+		for _, g := range c10GeoTypes {
+			if g == tok {
+				c.Spans = []c10Span{{1, 1, len(d) - 1}}
+			}
+		}
+		out = append(out, c)
+		// a document whose bytes also satisfy a signature tried before JSON (<svg ...) is not in
+		// the JSON family at all: outside this property (C08 states the exception)
+		kept := out[:0]
+		for _, x := range out {
+			if c08HigherPriority([]byte(x.Doc), 0) == "" {
+				kept = append(kept, x)
+			}
+		}
+		return kept
+	}, c10Check, "each printable literal as top-level key, as value, nested under itself, and as the value of \"type\"") {
+		return
+	}
 	if vfOnlySub("huge") && !vfReplayMode() && vfShard() < 3 {
 		kind := []string{"geojson-decider-last", "har-decider-last", "gltf-decider-last"}[vfShard()]
 		want := map[string][2]string{"geojson-decider-last": {"application/geo+json", ".geojson"}, "har-decider-last": {"application/json", ".har"}, "gltf-decider-last": {"model/gltf+json", ".gltf"}}[kind]
